@@ -2,7 +2,7 @@
    Property theorems only: each is closed by [exact] of a lemma of
    ProofsA/B/C or Bridge and followed by Print Assumptions. *)
 From Coq Require Import String List ZArith NArith Bool Permutation.
-From VF.C06 Require Import Model ProofsA ProofsB ProofsC ProofsD ProofsE ProofsF Bridge.
+From VF.C06 Require Import Model ProofsA ProofsB ProofsC ProofsD ProofsE ProofsF ProofsG Bridge.
 From VF.gen Require Import C06MapRanges.
 Import ListNotations.
 Local Open Scope Z_scope.
@@ -160,6 +160,32 @@ Theorem C06_gas_used_within_limit :
               (ga_incl (worker_gas_run worker_gas_step (mkGacc gas_limit [] []) cands)) 0 <= gas_limit.
 Proof. exact gas_used_within_limit. Qed.
 Print Assumptions C06_gas_used_within_limit.
+
+(* ---------------------------------------------------------------------- *)
+(* 6b. the block context.  With the context a transaction can read (number,
+       coinbase, time, gas limit, BLOCKHASH) an explicit input: the result of
+       processing a block is a function of the parent state, the block and the
+       block's OWN ancestry within the reach of BLOCKHASH.  It does not depend on
+       iteration orders, the signer cache, nor on the contents of the ancestor-hash
+       cache as long as that cache agrees with the own ancestry - so not on which
+       other blocks (e.g. a sibling with the same number) the process executed
+       before.  `exec_reads_hashes_pointwise`: the EVM only applies GetHash. *)
+Theorem C06_execution_depends_only_on_own_ancestry :
+  forall (St tx lg : Type) exec_c price resolve val_exists penalize max_expired view apply_rewards
+         v5 threshold coeff ratios freq period_end commit receipt_hash bloom time_of gas_limit_of,
+    exec_reads_hashes_pointwise St tx lg exec_c ->
+  forall sc sc' m m' anc anc' hm hm' st h,
+    sched_valid sc -> sched_valid sc' -> memo_valid resolve m -> memo_valid resolve m' ->
+    hash_memo_ok anc hm -> hash_memo_ok anc' hm' ->
+    (forall n, (n < h_number h)%N -> (h_number h <= n + 256)%N -> anc n = anc' n) ->
+    process_block_ctx St tx lg exec_c price resolve val_exists penalize max_expired view apply_rewards
+                      v5 threshold coeff ratios freq period_end commit receipt_hash bloom time_of gas_limit_of
+                      sc m anc hm st h =
+    process_block_ctx St tx lg exec_c price resolve val_exists penalize max_expired view apply_rewards
+                      v5 threshold coeff ratios freq period_end commit receipt_hash bloom time_of gas_limit_of
+                      sc' m' anc' hm' st h.
+Proof. exact execution_depends_only_on_own_ancestry. Qed.
+Print Assumptions C06_execution_depends_only_on_own_ancestry.
 
 (* ---------------------------------------------------------------------- *)
 (* 7. forks.  A branch of any length built block after block by the builder
@@ -341,3 +367,17 @@ Example C06_nonvacuous_gas_pool :
    importer_gas 1500000 (ga_incl a) = None).
 Proof. exact (conj GasWitness.wf (conj GasWitness.sound_worker GasWitness.refunding_worker_block_rejected)). Qed.
 Print Assumptions C06_nonvacuous_gas_pool.
+
+(* block 7 of chain B (its transaction stores BLOCKHASH(6)) is accepted with an
+   empty ancestor cache and refused when the cache still holds the hash of block 6
+   of the sibling chain A (the seeded process-wide cache keyed by number); that
+   cache is not a cache of B's own ancestry *)
+Example C06_nonvacuous_block_ctx :
+  (exists recs, CtxWitness.run (fun _ => None) = Accepted _ _ 9999%N recs) /\
+  CtxWitness.run CtxWitness.stale = Rejected _ _ /\
+  ~ hash_memo_ok CtxWitness.anc_b CtxWitness.stale /\ hash_memo_ok CtxWitness.anc_b (fun _ => None).
+Proof.
+  split; [exact CtxWitness.clean_accepts|]. split; [exact CtxWitness.stale_cache_rejects|].
+  split; [exact CtxWitness.stale_is_not_own|]. intros n v H. discriminate.
+Qed.
+Print Assumptions C06_nonvacuous_block_ctx.
